@@ -1353,6 +1353,18 @@ class Folder:
                     idx = [i for i, t in enumerate(v) if t]
                     return PySeq([idx]) if (short == "where" or as_tuple) else [[i] for i in idx]
                 raise Unfoldable(f"{short} of a matrix")
+            if nm == "sum" and 1 <= len(node.args) <= 2 and not node.keywords and isinstance(self._peek(node.args[0]), PySeq):
+                # the builtin over a python sequence (of numbers or of model objects): left fold with +
+                seq_ = self.fold(node.args[0])
+                acc_ = self.fold(node.args[1]) if len(node.args) == 2 else 0
+                try:
+                    for it_ in seq_:
+                        if isinstance(it_, list) or isinstance(acc_, list):
+                            raise Unfoldable("builtin sum over tensors")
+                        acc_ = acc_ + it_
+                except TypeError as exc:
+                    raise Unfoldable(str(exc))
+                return acc_
             if short in ("argmax", "argmin") and node.args and (len(node.args) == 2 or any(k.arg == "dim" for k in node.keywords)):
                 v = self.fold(node.args[0])
                 d = self.fold(node.args[1] if len(node.args) == 2 else next(k.value for k in node.keywords if k.arg == "dim"))
